@@ -360,7 +360,8 @@ class Prop:
                    "dependence cancels (e.g. only(weight_mask(4,[1,3]) ^ x0)) logic.relevant_symbols misjudges relevance "
                    "by rounding (norm ~1e-8 against a 1e-10 threshold) - a logic.py robustness defect outside this property",
                    "marginals are strictly positive torch vectors or None (as quantified)"]
-    THEOREMS = ["C10_extended", "C10_undo", "C10_centred", "C10_reconstruct"]
+    THEOREMS = ["C10_extended", "C10_undo", "C10_centred", "C10_reconstruct", "C10_truncate", "C10_term_depends_only",
+                "C10_terms_orthogonal"]
 
     # ------------------------------------------------------------------ generation
     def generate(self, rng, tier):
@@ -642,7 +643,20 @@ class Prop:
 
     def coq_term(self, case, res):
         from fractions import Fraction
-        if not res.get("ok") or case["op"] not in ("extended", "undo") or case.get("mask") is not None:
+        if not res.get("ok") or "dense" not in res:
+            return None
+        masked = case.get("mask") is not None
+        if masked:
+            if not (case["op"] == "undo" or case.get("via") in ("mask_undo", "truncate_keep")):
+                return None
+            try:
+                mt = build_mask(case["mask"], len(case["t"]["modes"]))
+            except Exception:
+                return None
+            if mt.dim() != len(case["t"]["modes"]) or any(int(x) != 2 for x in mt.shape) or mt.cores[-1].shape[-1] != 1 \
+                    or mt.cores[0].shape[0] != 1 or max(max(c.shape) for c in mt.cores) > 8:
+                return None
+        elif case["op"] not in ("extended", "undo"):
             return None
         tj = case["t"]; shape = tshape(tj)
         marg = case["marginals"]
@@ -660,6 +674,10 @@ class Prop:
             ws.append(coq_list(w, qlit, "Q"))
         lit = lambda x: qlit(Fraction(x))
         qd = lambda x: "(%d#%d)" % (round(x * 2 ** 40), 2 ** 40)
+        if masked:
+            lx = lambda x: qlit(Fraction(float(x)))
+            return "mkCase (OTruncate %s [%s] %s) %s %s" % (coq_tensor(tj, lit, "Q"), "; ".join(ws), coq_tensor(from_tn(mt), lx, "Q"),
+                                                           coq_natlist(res["shape"]), coq_list(res["dense"], qd, "Q"))
         opn = "OExtended" if case["op"] == "extended" else "OUndo"
         return "mkCase (%s %s [%s]) %s %s" % (opn, coq_tensor(tj, lit, "Q"), "; ".join(ws), coq_natlist(res["shape"]),
                                               coq_list(res["dense"], qd, "Q"))
